@@ -298,20 +298,6 @@ theorem step_w3 (s s' : St) (e : Ev) (h1 : W1 s) (h3 : W3 s) (h : step s e = som
 
 /-! ### the delivered signal -/
 
-/-- the values sent by the predecessors -/
-def vals (s : St) : Nat → Option Int := fun i =>
-  match s.compl i with
-  | some (_, a) => some a
-  | none => none
-
-/-- What `when_all` must deliver, as a function of the history alone: the first non-value
-    completion to reach the latch decides (stopped, or that error); if there is none, the values
-    of all predecessors in predecessor order. -/
-def decisionG (s : St) : Nat × Int :=
-  match s.first with
-  | none => (0, enc (vals s) s.n)
-  | some (_, ch, e) => if ch = 1 then (1, 0) else (2, e)
-
 theorem enc_congr (f g : Nat → Option Int) : ∀ n, (∀ i, i < n → f i = g i) → enc f n = enc g n
   | 0, _ => rfl
   | k + 1, h => by
